@@ -52,6 +52,34 @@ def main(shift):
     x2, x3 = SpatialCoordinate(m2), SpatialCoordinate(m3)
     out["coords_two_meshes"] = ((x2[0] + 2 * x3[0]) * (x2[0] * x3[0]) * f * v * dx(mesh)).signature()
     out["conditional"] = (conditional(lt(f, g), exp(f), g * g) * v * dx(degree=3)).signature()
+    # history inside one process: a function space over a MeshSequence used by two forms that integrate over different
+    # component meshes; the signature of F must not depend on whether the other form was signed first
+    try:
+        import os
+
+        sys.path.insert(0, os.path.join(os.path.dirname(os.path.dirname(ufl.__file__)), "test"))
+        from utils import LagrangeElement, MixedElement
+
+        from ufl import Measure, MeshSequence, split
+
+        def build_ms():
+            ma, mb = Mesh(LagrangeElement(triangle, 1, (2,))), Mesh(LagrangeElement(triangle, 1, (2,)))
+            elem = MixedElement([LagrangeElement(triangle, 1), LagrangeElement(triangle, 2)], make_cell_sequence=True)
+            Vm = FunctionSpace(MeshSequence([ma, mb]), elem)
+            fm = Coefficient(Vm)
+            f0, f1 = split(fm)
+            return f0 * f1 * Measure("dx", ma), f0 * f1 * Measure("dx", mb)
+
+        _, Fa = build_ms()
+        sa = Fa.signature()
+        other_b, Fb = build_ms()
+        other_b.signature()
+        sb = Fb.signature()
+        out["history/meshsequence_space"] = "same" if sa == sb else f"DIFFERENT fresh={sa[:12]} after-other-form={sb[:12]}"
+        out["meshsequence_forms_built"] = "yes"
+    except Exception as ex:  # noqa: BLE001  (mixed-domain support missing or changed: not this check's subject)
+        out["history/meshsequence_space"] = "same"
+        out["meshsequence_forms_built"] = "no: " + type(ex).__name__
     print("SIGS " + json.dumps(out))
 
 
